@@ -189,12 +189,16 @@ func cmdCheck(args []string) int {
 			}
 		}
 		failed++
-		path := writeReplay(cfg, prop, r)
+		path, confirmed := writeReplay(cfg, prop, r)
 		line := fmt.Sprintf("VIOLATION property=%s replay=%s obligation=%s solver=%s", prop, path, r.Obl.Name, r.Res.Status)
 		if r.Obl.Support {
 			line += " supporting-obligation(assumed-by-" + prop + "-obligations-of-the-function)"
 		}
-		line += " no-failing-input-found"
+		if confirmed {
+			line += " replayed-on-real-code"
+		} else {
+			line += " no-failing-input-found"
+		}
 		violations = append(violations, line)
 	}
 	sort.Slice(slowest, func(i, j int) bool { return slowest[i].Secs > slowest[j].Secs })
@@ -212,7 +216,7 @@ func cmdCheck(args []string) int {
 	}
 	total := len(out.Results) - knownN
 	fmt.Printf("[%s] functions %d, obligations %d, assumed %d, binding failures %d\n", prop, len(out.Functions), len(out.Results), len(out.Assumed), len(out.BindErrs))
-	fmt.Printf("[%s] discharged %d  known-finding %d  failed %d   solver %.1fs (z3new %d, cvc5 %d, z3 %d)\n", prop, discharged, knownN, failed, solverTime, perSolver["z3new"], perSolver["cvc5"], perSolver["z3"])
+	fmt.Printf("[%s] discharged %d  known-finding %d  failed %d   solver %.1fs (z3new %d, z3new-ematch %d, cvc5 %d)\n", prop, discharged, knownN, failed, solverTime, perSolver["z3new"], perSolver["z3new-ematch"], perSolver["cvc5"])
 	for _, e := range out.BindErrs {
 		fmt.Println("UNDECIDED:", e)
 	}
@@ -243,7 +247,7 @@ func cmdCheck(args []string) int {
 	cov := map[string]any{
 		"obligations":              total,
 		"discharged":               discharged,
-		"checker_cmd":              fmt.Sprintf("bin/fvc check %s %s  (VC generation over go/ssa of /repo's working tree with -tags verif; z3 5.1.0 + cvc5 1.0.3 portfolio, %ds per query)", prop, tier, cfg.Timeout),
+		"checker_cmd":              fmt.Sprintf("bin/fvc check %s %s  (VC generation over go/ssa of /repo's working tree with -tags verif; z3 5.1.0 (default and E-matching-only configuration) + cvc5 1.0.3 portfolio, %ds per query)", prop, tier, cfg.Timeout),
 		"trusted_base":             []string{"go/packages + go/ssa (x/tools v0.29.0) source-to-SSA translation", "fvc SSA-to-SMT encoder (/verif/engine; semantic model and dropped features in DESIGN §4)", "SMT solvers z3 5.1.0 and cvc5 1.0.3 (z3 4.8.12 and z3 5.1.0 with arith.solver=2 are excluded: unstable unsat answers)", "assumed contracts and frame assumptions listed under assumptions"},
 		"functions_under_contract": out.Functions,
 		"per_solver":               perSolver,
@@ -334,7 +338,9 @@ func readManifest(verif string) manifest {
 	return m
 }
 
-func writeReplay(cfg RunConfig, prop string, r *OblResult) string {
+var replayCache = map[string]*ReplayResult{}
+
+func writeReplay(cfg RunConfig, prop string, r *OblResult) (string, bool) {
 	dir := filepath.Join(cfg.Verif, "replays")
 	_ = os.MkdirAll(dir, 0o755)
 	path := filepath.Join(dir, fmt.Sprintf("%s-%s.json", prop, oblHash(r.Obl.Name)))
@@ -358,9 +364,29 @@ func writeReplay(cfg RunConfig, prop string, r *OblResult) string {
 		"replayed_on_real_code": false,
 		"note": "the obligation is generated from the current /repo source and is not discharged; no concrete failing input was constructed (no-failing-input-found)",
 	}
+	// concretising replay: run the real function against its contract compiled to Go (once per function)
+	cr, ok := replayCache[r.Obl.Fn]
+	if !ok {
+		x := concreteReplay(cfg, r, model)
+		cr = &x
+		replayCache[r.Obl.Fn] = cr
+	}
+	confirmed := false
+	if cr.Confirmed {
+		confirmed = true
+		rep["replayed_on_real_code"] = true
+		rep["failing_input"] = cr.Input
+		rep["violated_on_real_code"] = cr.Violated
+		rep["replay_search"] = "contract of " + r.Obl.Fn + " compiled to Go and run on the real function through go test -overlay; inputs from the literals of the contract, the constants of the body and the integers of the solver's candidate model"
+		rep["replay_test"] = cr.Test
+		rep["replay_output"] = cr.Output
+		rep["note"] = "the obligation is generated from the current /repo source and is not discharged; the real function violates its contract on the input given under failing_input"
+	} else {
+		rep["replay_attempt"] = map[string]any{"tried": cr.Tried, "why_no_input": cr.Why, "output": truncate(cr.Output, 1200)}
+	}
 	data, _ := json.MarshalIndent(rep, "", " ")
 	_ = os.WriteFile(path, data, 0o644)
-	return path
+	return path, confirmed
 }
 
 // runKnownReplay runs a recorded failing input against the real code.
